@@ -88,7 +88,7 @@ Mix ==
                              "SetObjective", "SetObjCoef", "SetDirection", "SetMedium", "GetMedium", "SwitchSolver",
                              "AddUserCons", "AddUserVar", "RemoveUserCons", "RemoveUserVar", "AddGroup", "RemoveGroup",
                              "Copy", "Enter", "Exit", "RoundTrip", "DetachedSetBounds", "RxnArith", "Merge", "SaveDoc", "LoadDoc", "BuildFromString", "BuildFromString",
-                             "SetFunctional", "Repair", "ReAddDetached", "ReAddDetached", "AddArith", "FixObjective", "SetAttr">>
+                             "SetFunctional", "Repair", "ReAddDetached", "ReAddDetached", "AddArith", "FixObjective", "SetAttr", "SetTolerance">>
     [] Profile = "ctx" -> <<"Enter", "Enter", "Enter", "Exit", "Exit", "Exit", "AddReactions", "RemoveReactions",
                             "RemoveReactions", "AddMetabolites", "RemoveMetabolites", "AddBoundary", "RxnAddMetabolites",
                             "RxnAddMetabolites", "RxnSubtractMetabolites", "RxnIMul", "RxnIAdd", "RxnISub", "SetLB", "SetUB",
@@ -104,7 +104,7 @@ Mix ==
                              "RenameMetabolite", "SetObjective", "SetDirection", "SetMedium", "AddUserCons", "AddGroup",
                              "RemoveGroup", "Annotate", "Annotate", "Annotate", "Analyze", "Enter", "Exit", "SwitchSolver",
                              "RxnArith", "RxnArith", "Merge", "Merge", "AddArith", "AddArith", "AddArith", "SetAttr",
-                             "SetAttr">>
+                             "SetAttr", "SetTolerance", "SetTolerance">>
     [] Profile = "io" -> <<"RoundTrip", "RoundTrip", "RoundTrip", "RoundTrip", "AddReactions", "RemoveReactions", "RxnAddMetabolites",
                            "SetBounds", "SetBounds", "SetLB", "SetUB", "SetRule", "SetObjective", "SetObjCoef",
                            "SetDirection", "AddBoundary", "AddGroup", "Annotate", "Annotate", "Annotate", "RenameGene",
@@ -206,6 +206,7 @@ DrawOp(r, S) ==
                                        ELSE Missing]]
     [] k = "GetMedium" -> base
     [] k = "SwitchSolver" -> base @@ [solver |-> Pick(<<"glpk", "glpk_exact">>, d[8])]
+    [] k = "SetTolerance" -> base @@ [k |-> Pick(<<9, 6, 7>>, d[8])]
     [] k \in {"AddUserCons", "RemoveUserCons"} -> base @@ [name |-> Pick(<<"uc1", "uc2">>, d[8])]
     [] k \in {"AddUserVar", "RemoveUserVar"} -> base @@ [name |-> Pick(<<"uv1", "uv2">>, d[8])]
     [] k = "AddGroup" -> base @@ [g |-> "grp1", members |-> IF d[8] % 2 = 0 THEN <<rx, mt>> ELSE <<rx, gn>>]
@@ -221,7 +222,9 @@ DrawOp(r, S) ==
     [] k = "AddArith" -> [a |-> k, s |-> s, t |-> IF d[10] % 3 = 0 THEN s ELSE 3 - s, r |-> rx, q |-> rx2,
                           kind |-> Pick(<<"add", "copy", "add", "sub", "mul">>, d[8]), k |-> Pick(<<2, -1>>, d[9]),
                           new |-> PickPresent(PlainRx, RxU \ C.rxns, d[11])]
-    [] k \in {"Enter", "Exit"} -> base
+    [] k = "Enter" -> base
+    \* exc: the block ends by an exception (__exit__ is called with the exception triple) -- same meaning
+    [] k = "Exit" -> base @@ [exc |-> d[9] % 3 = 0]
     [] k = "RoundTrip" -> base @@ [fmt |-> Pick(Formats, d[8])]
     [] k = "SaveDoc" -> base @@ [fmt |-> Pick(<<"json", "yaml", "dict", "sbml", "pickle">>, d[8])]
     [] k = "LoadDoc" -> [a |-> k, s |-> IF d[8] % 2 = 0 THEN 1 ELSE 2]
@@ -237,7 +240,7 @@ BoundOps ==
   \cup {[a |-> "SetBounds", s |-> 1, r |-> "r1", lo |-> -5, hi |-> 5],
         [a |-> "RxnKnockOut", s |-> 1, r |-> "r1"],
         [a |-> "GeneKnockOut", s |-> 1, g |-> "g1"],
-        [a |-> "Enter", s |-> 1], [a |-> "Exit", s |-> 1]}
+        [a |-> "Enter", s |-> 1], [a |-> "Exit", s |-> 1, exc |-> TRUE]}
 \* io vocabulary: export / import separated in time, edits through mutable containers in between
 IoOps ==
   {[a |-> "RoundTrip", s |-> 1, fmt |-> f] : f \in {"json", "yaml", "sbml", "pickle"}}
@@ -259,6 +262,8 @@ CopyOps ==
    [a |-> "RenameGene", s |-> 2, g |-> "g1", new |-> "g4", more |-> <<>>],
    [a |-> "Annotate", s |-> 2, x |-> "g1", v |-> 2, via |-> 0],
    [a |-> "Annotate", s |-> 1, x |-> "m1", v |-> 3, via |-> 2],
+   [a |-> "SetTolerance", s |-> 1, k |-> 9],
+   [a |-> "Copy", s |-> 1, t |-> 2, kind |-> "deepcopy"],
    [a |-> "SetBounds", s |-> 2, r |-> "r1", lo |-> -5, hi |-> 5],
    [a |-> "RxnIMul", s |-> 2, r |-> "r2", k |-> -1],
    [a |-> "SetRule", s |-> 2, r |-> "r3", rule |-> G("g2"), form |-> 1],
